@@ -1,7 +1,9 @@
 //! Verification harness for petgraph: engines (E1 history explorer, E2 input
 //! enumerator), reference models and oracles.  See /verif/DESIGN.md.
+pub mod algs;
 pub mod e1;
 pub mod e2;
+pub mod enc;
 pub mod guard;
 pub mod refmodel;
 pub mod report;
